@@ -499,8 +499,14 @@ def run_evolver(spec, evolutions, rows=None, database='default'):
                         evolver.evolve()
                 except Exception as e:
                     result['error'] = H._error_dict(e, phase)
-                    result['error']['detail'] = getattr(
-                        e, 'detailed_error', None)
+                    inner = e.__context__
+
+                    if (type(e).__name__ == 'EvolutionExecutionError' and
+                        inner is not None):
+                        # report the database error it wraps
+                        result['error']['wrapped_in'] = type(e).__name__
+                        result['error']['class'] = type(inner).__name__
+                        result['error']['message'] = str(inner)
 
                 result['statements'] = [
                     statement for statement in recorded
@@ -894,14 +900,433 @@ def classify_schema_atom(atom, ctx):
     return None
 
 
-def explain_schema_diff(diff, final_sig, rebuilt_tables):
-    """``{'atoms': [...], 'causes': [...]}`` for a schema diff."""
+def _scenario_facts(ctx, final_sig, muts):
+    """Facts about the mutations used by the narrow attribution rules."""
+    muts = muts or []
+    table_of = {}
+    col_of = {}
+    m2m_tables = set()
+
+    for model, msig in (final_sig or {}).items():
+        table_of[model] = msig['meta']['db_table']
+
+        for fname, info in msig['fields'].items():
+            col = _field_col(fname, info)
+
+            if col is None:
+                m2m_tables.add(_m2m_table(msig, fname, info))
+            else:
+                col_of[(model, fname)] = col
+
+    # Resolve the model / field names written in each mutation to the names
+    # they have at the END of the run (walk backwards through the renames).
+    model_final = {}
+    field_final = {}
+    resolved = []
+
+    for desc in reversed(muts):
+        kind = desc[0]
+
+        if kind == 'RenameModel':
+            model_final[desc[1]] = model_final.get(desc[2], desc[2])
+            resolved.append((desc, None, None))
+            continue
+
+        if kind in ('SQLMutation', 'DeleteApplication', 'DeleteModel'):
+            resolved.append((desc, None, None))
+            continue
+
+        model = model_final.get(desc[1], desc[1])
+
+        if kind == 'RenameField':
+            field_final[(model, desc[2])] = field_final.get(
+                (model, desc[3]), desc[3])
+            resolved.append((desc, model, field_final[(model, desc[2])]))
+        elif kind in ('AddField', 'DeleteField'):
+            # a name (re)introduced or removed here is a new identity for
+            # everything before this point
+            fname = field_final.pop((model, desc[2]), desc[2])
+            resolved.append((desc, model, fname))
+        elif kind == 'ChangeField':
+            resolved.append((desc, model,
+                             field_final.get((model, desc[2]), desc[2])))
+        else:
+            resolved.append((desc, model, None))
+
+    resolved.reverse()
+
+    late_db_index = set()      # (table, col): db_index changed, not 1st op
+    checked_db_index = set()   # (table, col): db_index change on any col
+    seen_models = set()
+    renamed_ids = set()
+    relation_type_change = False
+    renamed_cols = set()       # new names of columns renamed in the run
+    ut_deleted = set()         # tables where a unique_together member
+    ut_fields = {}             # was deleted in the same run
+
+    for desc, model, fname in resolved:
+        kind = desc[0]
+
+        if kind == 'RenameModel':
+            renamed_ids.add('%s_id' % desc[1].lower())
+            renamed_ids.add('%s_id' % desc[2].lower())
+            continue
+
+        if model is None:
+            continue
+
+        if kind == 'ChangeField':
+            kwargs = desc[3]
+            key = (table_of.get(model), col_of.get((model, fname)))
+
+            if 'db_index' in kwargs:
+                checked_db_index.add(key)
+
+                if model in seen_models:
+                    late_db_index.add(key)
+
+            if 'field_type' in kwargs and 'related_model' in kwargs:
+                relation_type_change = True
+
+            if kwargs.get('db_column'):
+                renamed_cols.add(kwargs['db_column'])
+        elif kind == 'RenameField':
+            renamed_cols.add(col_of.get((model, fname)) or
+                             (desc[4] or {}).get('db_column') or desc[3])
+        elif kind == 'ChangeMeta' and desc[2] == 'unique_together':
+            ut_fields.setdefault(model, set()).update(
+                f for item in desc[3] for f in item)
+        elif kind == 'DeleteField' and desc[2] in ut_fields.get(model, ()):
+            ut_deleted.add(table_of.get(model))
+
+        seen_models.add(model)
+
+    feats = sequence_features(muts, batched=ctx.get('batched', True))
+    ctx.update({
+        'features': feats,
+        'm2m_tables': sorted(m2m_tables),
+        'late_db_index': sorted(late_db_index, key=repr),
+        'checked_db_index': sorted(checked_db_index, key=repr),
+        'renamed_ids': sorted(renamed_ids),
+        'relation_type_change': relation_type_change,
+        'renamed_cols': sorted(c for c in renamed_cols if c),
+        'renamed_tables': sorted(set(
+            desc[3] for desc in muts if desc[0] == 'RenameModel')),
+        'ut_deleted': sorted(t for t in ut_deleted if t),
+    })
+
+
+def sequence_features(muts, batched=True, spec=None):
+    """Syntactic features of a mutation sequence that the recorded root
+    causes are keyed on.  Field and model names are followed through
+    RenameModel; "same run" features are only reported for batched runs.
+    """
+    muts = muts or []
+    feats = {
+        'readded': [],            # column names deleted and re-added
+        'type_change_custom_column': False,
+        'renamed_model_touched_later': False,
+        'index_and_column_changed': [],   # field names
+        'constraints_changed_twice': False,
+        'noop_field_in_changemeta': False,
+        'field_ids_across_model_rename': False,
+        'reorder_sensitive': False,
+        'ut_member_deleted': False,
+        'changefield_then_type_change': False,
+        'rename_to_baseline_name': False,
+        'null_roundtrip': False,
+    }
+    alias = {}
+    notnull_fixed = set()
+    changed_fields = set()
+    batch_created = set()        # models created by a rename in this batch
+    spec_models = set(spec or ())                   # current model name -> first name
+
+    def first_name(model):
+        return alias.get(model, model)
+
+    deleted = set()
+    custom_col = {}              # (model0, field) -> custom column
+    index_fields = set()
+    column_fields = set()
+    type_fields = set()
+    ut_members = set()
+    constraints_seen = set()
+    added = {}
+    renamed_to = set()
+    meta_refs = {}
+    renamed_models = set()
+    touched_before_rename = set()
+
+    if spec:
+        for model, model_spec in spec.items():
+            for fname, info in (model_spec.get('fields') or {}).items():
+                if info[1].get('db_column'):
+                    custom_col[(model, fname)] = info[1]['db_column']
+
+    order = []
+
+    for desc in muts:
+        kind = desc[0]
+
+        if kind == 'SQLMutation':
+            batch_created = set()
+
+        if kind == 'RenameModel':
+            if (batched and spec_models and desc[1] not in batch_created and
+                desc[1] not in spec_models and desc[2] in spec_models):
+                feats['rename_to_baseline_name'] = True
+
+            batch_created.add(desc[2])
+            alias[desc[2]] = first_name(desc[1])
+            renamed_models.add(desc[2])
+
+            if first_name(desc[1]) in touched_before_rename:
+                feats['field_ids_across_model_rename'] = True
+
+            order.append(desc[1])
+            continue
+
+        if kind in ('SQLMutation', 'DeleteApplication'):
+            order.append(None)
+            continue
+
+        order.append(desc[1])
+        model = first_name(desc[1])
+
+        if desc[1] in renamed_models and batched:
+            feats['renamed_model_touched_later'] = True
+
+        if kind == 'DeleteModel':
+            continue
+
+        touched_before_rename.add(model)
+        key = (model, desc[2])
+
+        if kind == 'DeleteField':
+            deleted.add(key)
+
+            if key in ut_members and batched:
+                feats['ut_member_deleted'] = True
+
+            if (key in added or key in renamed_to) and \
+               key in meta_refs and batched:
+                feats['noop_field_in_changemeta'] = True
+        elif kind == 'AddField':
+            added[key] = True
+
+            if key in deleted and batched:
+                feats['readded'].append(desc[2])
+        elif kind == 'RenameField':
+            new_key = (model, desc[3])
+            renamed_to.add(new_key)
+
+            if key in changed_fields:
+                changed_fields.add(new_key)
+
+            if key in notnull_fixed:
+                notnull_fixed.add(new_key)
+
+            if new_key in deleted and batched:
+                feats['readded'].append(desc[3])
+
+            for mapping in (custom_col,):
+                mapping.pop(key, None)
+
+            if (desc[4] or {}).get('db_column'):
+                custom_col[new_key] = desc[4]['db_column']
+
+            if key in added:
+                added[new_key] = added.pop(key)
+
+            if key in index_fields:
+                index_fields.add(new_key)
+
+            if key in column_fields:
+                column_fields.add(new_key)
+
+            if key in type_fields:
+                type_fields.add(new_key)
+        elif kind == 'ChangeField':
+            kwargs = desc[3]
+
+            if 'field_type' in kwargs:
+                type_fields.add(key)
+
+                if key in changed_fields and batched:
+                    feats['changefield_then_type_change'] = True
+
+                if key in custom_col and not kwargs.get('db_column'):
+                    feats['type_change_custom_column'] = True
+
+                if not kwargs.get('db_column'):
+                    custom_col.pop(key, None)
+
+            changed_fields.add(key)
+
+            if kwargs.get('null') is False and \
+               kwargs.get('initial') is not None:
+                notnull_fixed.add(key)
+            elif kwargs.get('null') is True and key in notnull_fixed \
+                    and batched:
+                feats['null_roundtrip'] = True
+
+            if 'db_column' in kwargs:
+                column_fields.add(key)
+
+                if kwargs['db_column']:
+                    custom_col[key] = kwargs['db_column']
+
+            if 'db_index' in kwargs or 'unique' in kwargs:
+                index_fields.add(key)
+        elif kind == 'ChangeMeta':
+            if desc[2] == 'unique_together':
+                ut_members.update((model, f) for item in desc[3]
+                                  for f in item)
+
+            if desc[2] == 'constraints':
+                if model in constraints_seen and batched:
+                    feats['constraints_changed_twice'] = True
+
+                constraints_seen.add(model)
+
+            for name in re.findall(r'"([A-Za-z_0-9]+)"',
+                                   json.dumps(desc[3])):
+                meta_refs[(model, name)] = True
+
+    if batched and (type_fields & column_fields):
+        feats['type_change_custom_column'] = True
+
+    if batched:
+        feats['index_and_column_changed'] = sorted(
+            f for (_m, f) in (index_fields & column_fields))
+        names = [n for n in order if n is not None]
+        seen = []
+
+        for name in names:
+            if name not in seen:
+                seen.append(name)
+
+        # _process_mutation_batch regroups by sorted(model name)
+        grouped = [n for key in sorted(set(names)) for n in names
+                   if n == key]
+        feats['reorder_sensitive'] = (grouped != names and
+                                      None not in order)
+
+        if None in order:
+            # barriers split the batches; evaluate per chunk
+            chunk, sensitive = [], False
+
+            for name in order + [None]:
+                if name is None:
+                    grouped = [n for key in sorted(set(chunk))
+                               for n in chunk if n == key]
+                    sensitive = sensitive or grouped != chunk
+                    chunk = []
+                else:
+                    chunk.append(name)
+
+            feats['reorder_sensitive'] = sensitive
+
+    return feats
+
+
+def classify_by_scenario(atom, ctx):
+    """Attribution rules that need to know the mutations (see KNOWN_C01)."""
+    table, kind, item = atom['table'], atom['kind'], atom['item']
+    feats = ctx.get('features') or {}
+
+    if (feats.get('renamed_model_touched_later') and
+        kind in ('index-extra', 'index-missing') and
+        table in ctx.get('renamed_tables', [])):
+        return 'rename-model-not-tracked-in-database-state'
+
+    if (feats.get('changefield_then_type_change') and
+        kind in ('index-extra', 'index-missing', 'column-differs')):
+        return 'optimizer-merges-changefield-across-type-change'
+
+    if kind == 'column-missing' and item[0] in feats.get('readded', []):
+        return 'delete-and-readd-same-column-in-one-run'
+
+    if (kind in ('index-missing', 'index-extra') and feats.get('readded')
+        and any(col is None or col in feats['readded']
+                for col in item[1])):
+        return 'delete-and-readd-same-column-in-one-run'
+
+    if kind in ('index-missing', 'index-extra'):
+        if feats.get('index_and_column_changed') and len(item[1]) == 1:
+            return 'index-and-column-name-changed-in-one-run'
+
+        if feats.get('constraints_changed_twice') and item[0] == 1:
+            return 'constraints-changed-twice-in-one-run'
+
+        if kind == 'index-missing' and ctx.get('duplicates', {}).get(
+                table) and list(item) in ctx['duplicates'][table]:
+            return 'second-index-on-same-columns-skipped'
+
+    if ctx.get('relation_type_change'):
+        return 'type-change-across-relation-kinds'
+
+    if kind in ('index-missing', 'index-extra') and len(item[1]) == 1:
+        key = [table, item[1][0]]
+
+        if (kind == 'index-missing' and
+            item[1][0] in (ctx['tables'].get(table) or {}).get(
+                'positive', []) and
+            key in [list(k) for k in ctx.get('checked_db_index', [])]):
+            return 'check-constraint-taken-for-index'
+
+        if (key in [list(k) for k in ctx.get('late_db_index', [])] and
+            table in ctx['rebuilt']):
+            return 'db-index-change-after-rebuild-op-ignored'
+
+    if table in ctx.get('m2m_tables', []) and ctx.get('renamed_ids'):
+        text = json.dumps(item)
+
+        if any('"%s"' % name in text for name in ctx['renamed_ids']):
+            return 'rename-model-keeps-m2m-column-names'
+
+    if (kind == 'index-extra' and len(item[1]) > 1 and
+        any(col in ctx.get('renamed_cols', []) for col in item[1])):
+        return 'index-on-renamed-column-not-dropped'
+
+    if (table in ctx.get('ut_deleted', []) and
+        kind in ('index-missing', 'index-extra') and item[0] == 1):
+        return 'unique-together-member-deleted-in-same-run'
+
+    return None
+
+
+def explain_schema_diff(diff, final_sig, rebuilt_tables, symmetric=False,
+                        muts=None, batched=True):
+    """``{'atoms': [...], 'causes': [...]}`` for a schema diff.
+
+    ``symmetric``: the diff compares two evolved databases (not evolved vs
+    fresh), so an object may be lost on either side.
+    """
     ctx = schema_ctx(final_sig, rebuilt_tables)
+    ctx['batched'] = batched
+    _scenario_facts(ctx, final_sig, muts)
+    ctx['duplicates'] = {}
+
+    for entry in diff:
+        if entry['what'] == 'indexes':
+            expected = entry['expected']
+            ctx['duplicates'][entry['table']] = [
+                item for item in expected if expected.count(item) > 1]
+
     atoms = schema_atoms(diff)
     causes = set()
 
     for atom in atoms:
-        atom['cause'] = classify_schema_atom(atom, ctx)
+        atom['cause'] = (classify_by_scenario(atom, ctx) or
+                         classify_schema_atom(atom, ctx))
+
+        if (atom['cause'] is None and symmetric and
+            atom['kind'].endswith('-extra')):
+            mirrored = dict(atom, kind=atom['kind'][:-6] + '-missing')
+            atom['cause'] = classify_schema_atom(mirrored, ctx)
+
         causes.add(atom['cause'] or '?')
 
     return {'atoms': atoms, 'causes': sorted(causes),
@@ -968,7 +1393,12 @@ def _map(suite_id, scenarios, workers=None, deadline=None):
 
 def _known_match(known_list, clause, scenario, observed):
     for entry in known_list:
-        if entry['clause'] != clause:
+        clauses = entry['clause']
+
+        if isinstance(clauses, str):
+            clauses = [clauses]
+
+        if clause not in clauses:
             continue
 
         pred = entry.get('pred')
@@ -1536,12 +1966,12 @@ def _err_brief(error):
 
     return dict((key, error.get(key))
                 for key in ('class', 'message', 'phase', 'group',
-                            'failed_statement', 'detail')
+                            'failed_statement', 'wrapped_in')
                 if error.get(key) is not None)
 
 
 def _compare_outcomes(first, second, prefix, failures, first_name,
-                      second_name):
+                      second_name, muts=None, spec=None):
     """Append '<prefix>-signature/-schema/-rows' failures on difference."""
     if not _sig_equal(first['final_sig'], second['final_sig']):
         failures.append((prefix + '-signature', {
@@ -1553,11 +1983,16 @@ def _compare_outcomes(first, second, prefix, failures, first_name,
     if diff:
         rebuilt = set(first.get('rebuilds') or {}) | \
             set(second.get('rebuilds') or {})
+
+        if spec is not None and muts is not None:
+            rebuilt = _expand_rebuilt(spec, muts,
+                                      dict((t, 1) for t in rebuilt))
         failures.append((prefix + '-schema', dict({
             'differs': '%s (actual) vs %s (expected)'
                        % (first_name, second_name),
             'diff': diff},
-            **explain_schema_diff(diff, second['final_sig'], rebuilt))))
+            **explain_schema_diff(diff, second['final_sig'], rebuilt,
+                                  symmetric=True, muts=muts))))
 
     delta = _rows_delta(first['rows'], second['rows'])
 
@@ -1619,7 +2054,8 @@ def eval_C03(sc):
             'error': _err_brief(first['error'])}))
     else:
         _compare_outcomes(first, single, 'batched-same', failures,
-                          'optimised run', 'one at a time')
+                          'optimised run', 'one at a time', muts=muts,
+                          spec=spec)
 
     if before != after:
         failures.append(('definitions-unaltered', {
@@ -1666,7 +2102,18 @@ def eval_C03(sc):
             else:
                 _compare_outcomes(ev, single, 'evolver-same', failures,
                                   'Evolver pipeline (%d evolution(s))'
-                                  % parts, 'one at a time')
+                                  % parts, 'one at a time', muts=muts,
+                                  spec=spec)
+
+    altered = before != after
+    also = sorted(set(c for c, _o in failures))
+
+    for _clause, observed in failures:
+        observed['altered'] = altered
+        observed['also_failed'] = also
+        observed.setdefault('rebuilds_before_failure',
+                            dict(first['rebuilds'])
+                            if first['error'] is not None else {})
 
     out['summary'] = {
         'length': len(muts),
@@ -2577,6 +3024,15 @@ def hinted_mutations(spec, target):
         H._purge_registry()
 
 
+def _expand_rebuilt(spec, muts, rebuilds):
+    """Rebuilt tables under every name the same table has in the run."""
+    ident = _table_identities(spec, muts)
+    groups = set(ident.get(t, t) for t in rebuilds if t)
+
+    return sorted(set(t for t in rebuilds if t) |
+                  set(name for name, key in ident.items() if key in groups))
+
+
 def _is_crash(error):
     """An internal error (not a legitimate rejection, not a data error)."""
     return error is not None and error['phase'] in ('simulate', 'sql') and \
@@ -2626,8 +3082,9 @@ def eval_C01(sc):
         out['nontrivial'] = True
 
         if error['phase'] == 'execute':
-            failures.append(('sql-executes', {'error': _err_brief(error),
-                                              'muts': muts}))
+            failures.append(('sql-executes', {
+                'error': _err_brief(error), 'muts': muts,
+                'rebuilds_before_failure': dict(result['rebuilds'])}))
         else:
             failures.append(('accepted-evolution-crashes', {
                 'error': _err_brief(error), 'muts': muts}))
@@ -2660,12 +3117,10 @@ def eval_C01(sc):
     if diff:
         failures.append(('schema-equals-fresh', dict(
             {'diff': diff, 'muts': muts},
-            **explain_schema_diff(diff, result['final_sig'],
-                                  list(result['rebuilds'])))))
-
-    if target is not None and result['sig_matches_end'] is not True:
-        failures.append(('hinted-signature-reaches-target', {
-            'sig_diff': result['sig_diff'], 'muts': muts}))
+            **explain_schema_diff(
+                diff, result['final_sig'],
+                _expand_rebuilt(spec, muts, result['rebuilds']),
+                muts=muts, batched=sc.get('batched', True)))))
 
     # -- untouched tables ----------------------------------------------------
     for table in sorted(bystander_tables):
@@ -3316,3 +3771,870 @@ def replay_C18(inputs):
             'failures': H.to_jsonable(out['failures']),
             'skipped': out.get('skipped'),
             'internal_error': out.get('internal_error')}
+
+
+# ---------------------------------------------------------------------------
+# Recorded genuine violations on the pinned tree (KNOWN lists)
+# ---------------------------------------------------------------------------
+
+def _causes_pred(cause):
+    """Schema failure fully explained by recorded causes, incl. ``cause``."""
+    def pred(scenario, observed):
+        causes = observed.get('causes') or []
+        return cause in causes and '?' not in causes
+
+    return pred
+
+
+def _error_pred(error_class=None, message_re=None, extra=None):
+    def pred(scenario, observed):
+        error = observed.get('error') or {}
+
+        if error_class and error.get('class') != error_class:
+            return False
+
+        if message_re and not re.search(message_re,
+                                        error.get('message') or ''):
+            return False
+
+        return extra is None or extra(scenario, observed)
+
+    return pred
+
+
+def _muts_of(scenario, observed):
+    return scenario.get('muts') or observed.get('muts') or []
+
+
+def _after_rebuild(scenario, observed):
+    return bool(observed.get('rebuilds_before_failure'))
+
+
+def _has_relation_type_change(scenario, observed):
+    for desc in _muts_of(scenario, observed):
+        if desc[0] == 'ChangeField' and 'field_type' in desc[3] and \
+           'related_model' in desc[3]:
+            return True
+
+    return False
+
+
+def _resets_column_or_table_name(scenario, observed):
+    spec = scenario.get('spec') or {}
+
+    for desc in _muts_of(scenario, observed):
+        if desc[0] != 'ChangeField':
+            continue
+
+        if 'db_column' in desc[3] and desc[3]['db_column'] is None:
+            return True
+
+        if 'db_table' in desc[3]:
+            info = ((spec.get(desc[1]) or {}).get('fields') or {}).get(
+                desc[2])
+
+            if info and not info[1].get('db_table'):
+                return True
+
+    return False
+
+
+def _drops_check_as_index(scenario, observed):
+    if observed.get('rebuilds_before_failure'):
+        return False
+
+    message = (observed.get('error') or {}).get('message') or ''
+    name = message.split(':', 1)[-1].strip()
+
+    if name.startswith('__unnamed_constraint_'):
+        return True
+
+    for model_spec in (scenario.get('spec') or {}).values():
+        for item in (model_spec.get('meta') or {}).get('constraints') or []:
+            if item.get('name') == name and 'check' in item:
+                return True
+
+    return False
+
+
+
+
+def _witness(muts, spec=None, rows=None, **extra):
+    return dict({'spec': spec, 'rows': rows, 'muts': muts}, **extra)
+
+
+KNOWN_C01[:] = [
+    {
+        'id': 'rebuild-loses-table-level-objects',
+        'clause': 'schema-equals-fresh',
+        'match': 'every schema difference is an index/partial-index '
+                 'condition/CHECK that the evolved models declare through '
+                 'Meta (unique_together, index_together, indexes, '
+                 'constraints) and that is missing on a table the run '
+                 'rebuilt (CREATE TABLE "TEMP_TABLE" ...)',
+        'what': 'SQLiteAlterTableSQLResult.to_sql rebuilds the table from '
+                'its columns only: step 5 restores per-field indexes from a '
+                'fake _meta with index_together=[] and indexes=[], '
+                'constraints are emitted only for an ADD CONSTRAINTS op '
+                '(and never for conditional UniqueConstraints, whose '
+                'constraint_sql() is None), so unique_together / '
+                'index_together / Meta.indexes / Meta.constraints objects '
+                'of the table silently disappear',
+        'pred': _causes_pred('rebuild-loses-table-level-objects'),
+    },
+    {
+        'id': 'positive-integer-check-not-created',
+        'clause': 'schema-equals-fresh',
+        'match': 'the only unexplained-by-other-entries difference is the '
+                 'column CHECK ("col" >= 0) of a PositiveIntegerField '
+                 'column that the evolution added, changed or carried '
+                 'through a rebuild',
+        'what': 'BaseEvolutionOperations.build_column_schema never emits '
+                'the db_check of a field, so PositiveIntegerField columns '
+                'created by AddField/ChangeField or re-created by a '
+                'rebuild lack the CHECK Django creates',
+        'pred': _causes_pred('positive-integer-check-not-created'),
+    },
+    {
+        'id': 'drop-index-after-rebuild-dropped-it',
+        'clause': 'sql-executes',
+        'match': 'DROP INDEX fails with "no such index" after a rebuild of '
+                 'the same table earlier in the same run',
+        'what': 'consequence of rebuild-loses-table-level-objects: the '
+                'rebuild already dropped the Meta level index, the '
+                'DatabaseState still lists it, so the later DROP INDEX '
+                'generated for ChangeMeta/ChangeField fails',
+        'pred': _error_pred('OperationalError', r'^no such index',
+                            _after_rebuild),
+    },
+    {
+        'id': 'check-constraint-taken-for-index',
+        'clause': 'sql-executes',
+        'match': 'DROP INDEX <name of a CHECK constraint of the table> '
+                 '("__unnamed_constraint_N__" for a PositiveIntegerField, '
+                 'or a Meta CheckConstraint name), no rebuild before it',
+        'what': 'DatabaseState.rescan_tables records every entry of '
+                'get_constraints(), including the unnamed column CHECK of '
+                'a PositiveIntegerField, as an index on that column; '
+                'ChangeField(db_index=False) then tries to DROP it',
+        'pred': _error_pred('OperationalError', r'^no such index',
+                            lambda sc, ob: _drops_check_as_index(sc, ob)),
+    },
+    {
+        'id': 'type-change-across-relation-kinds',
+        'clause': 'sql-executes',
+        'match': 'ChangeField(field_type=..., related_model=...) between '
+                 'a plain column, a ForeignKey and a ManyToManyField',
+        'what': 'the hinted ChangeField for a relation<->plain type change '
+                'is accepted by the simulation but CHANGE COLUMN TYPE only '
+                'swaps the field object: the column name (n vs n_id) / '
+                'm2m table is not handled and the INSERT..SELECT fails',
+        'pred': _error_pred('OperationalError', r'has no column named',
+                            _has_relation_type_change),
+    },
+    {
+        'id': 'reset-db_column-or-db_table-crashes',
+        'clause': 'accepted-evolution-crashes',
+        'match': 'ChangeField(db_column=None) or ChangeField(<m2m>, '
+                 'db_table=...) on a field without explicit db_table',
+        'what': 'change_column_attr_db_column/db_table pass None straight '
+                'to rename_column/rename_table -> quote_name(None) raises '
+                'AttributeError during SQL generation (the library\'s own '
+                'Diff produces db_column=None hints)',
+        'pred': _error_pred('AttributeError', r"'startswith'",
+                            _resets_column_or_table_name),
+    },
+    {
+        'id': 'changefield-related_model-unsupported',
+        'clause': 'accepted-evolution-crashes',
+        'match': 'ChangeField(..., related_model=...) as produced by Diff',
+        'what': 'ChangeField.mutate treats related_model as a column '
+                'attribute and change_column_attrs looks up the missing '
+                'change_column_attr_related_model',
+        'pred': _error_pred('AttributeError',
+                            r'change_column_attr_related_model'),
+    },
+]
+
+
+KNOWN_C01.extend([
+    {
+        'id': 'check-constraint-taken-for-index',
+        'clause': 'schema-equals-fresh',
+        'match': 'ChangeField(db_index=True) on a PositiveIntegerField '
+                 'column: the single-column index is missing',
+        'what': 'the scanned DatabaseState lists the column CHECK as an '
+                'index on the column, so create_index() believes the index '
+                'exists and emits nothing',
+        'pred': _causes_pred('check-constraint-taken-for-index'),
+    },
+    {
+        'id': 'db-index-change-after-rebuild-op-ignored',
+        'clause': 'schema-equals-fresh',
+        'match': 'one run containing a rebuild-causing mutation on a model '
+                 'FOLLOWED by ChangeField(<same model>, db_index=...): the '
+                 'single-column index of that field is missing (True) or '
+                 'still there (False)',
+        'what': 'change_column_attr_db_index flips db_index on the field '
+                'of the MockModel created for ITS op, but the merged '
+                'SQLiteAlterTableSQLResult rebuilds and re-indexes from '
+                'the MockModel of the FIRST op of the batch, and the SQL of '
+                'evolver.create_index() is deliberately discarded',
+        'pred': _causes_pred('db-index-change-after-rebuild-op-ignored'),
+    },
+    {
+        'id': 'rename-model-keeps-m2m-column-names',
+        'clause': 'schema-equals-fresh',
+        'match': 'RenameModel of a model that is one end of an '
+                 'auto-created many-to-many table: the differences are the '
+                 '<oldmodel>_id / <newmodel>_id column of that table and '
+                 'the indexes / foreign keys on it',
+        'what': 'RenameModel only renames the model table (and fixes '
+                'references); the column Django derives from the model '
+                'name in the auto-created m2m table keeps the old name',
+        'pred': _causes_pred('rename-model-keeps-m2m-column-names'),
+    },
+    {
+        'id': 'type-change-across-relation-kinds',
+        'clause': 'schema-equals-fresh',
+        'match': 'ChangeField(field_type=..., related_model=...) between '
+                 'a plain column, a ForeignKey and a ManyToManyField',
+        'what': 'see the sql-executes entry of the same id: column name / '
+                'm2m table / foreign key are not converted',
+        'pred': _causes_pred('type-change-across-relation-kinds'),
+    },
+    {
+        'id': 'unique-together-member-deleted-in-same-run',
+        'clause': 'schema-equals-fresh',
+        'match': 'ChangeMeta(unique_together=[..f..]) and DeleteField(f) in '
+                 'one run: the unique index differs',
+        'what': 'DeleteField.simulate shrinks unique_together to the '
+                'remaining fields, but no index is created for the shrunk '
+                'tuple and the index created for the original tuple is '
+                'either lost with the rebuild or (batched) created on a '
+                'table that no longer has the column (SQLite then indexes '
+                'the string literal "f")',
+        'pred': _causes_pred('unique-together-member-deleted-in-same-run'),
+    },
+])
+
+
+KNOWN_C01.append({
+    'id': 'index-on-renamed-column-not-dropped',
+    'clause': 'schema-equals-fresh',
+    'match': 'a column is renamed (ChangeField db_column / RenameField) '
+             'and, in the same run, a ChangeMeta removes a multi-column '
+             'index (index_together / unique_together / indexes) covering '
+             'it: the index is still there',
+    'what': 'rename_column() does not rename the column inside the '
+            'DatabaseState index records, so the later lookup of the index '
+            'by its (new) column names finds nothing and no DROP INDEX is '
+            'generated',
+    'pred': _causes_pred('index-on-renamed-column-not-dropped'),
+})
+
+
+def _feat_pred(name, error_class=None, message_re=None):
+    """Error failure in a scenario that has sequence feature ``name``."""
+    def pred(scenario, observed):
+        error = observed.get('error') or {}
+
+        if error_class and error.get('class') != error_class:
+            return False
+
+        if message_re and not re.search(message_re,
+                                        error.get('message') or ''):
+            return False
+
+        feats = sequence_features(_muts_of(scenario, observed),
+                                  batched=scenario.get('batched', True),
+                                  spec=scenario.get('spec'))
+        value = feats.get(name)
+
+        if name == 'readded':
+            m = re.search(r'no column named (\w+)',
+                          error.get('message') or '')
+            return bool(m and m.group(1) in value)
+
+        return bool(value)
+
+    return pred
+
+
+KNOWN_C01.extend([
+    {
+        'id': 'delete-and-readd-same-column-in-one-run',
+        'clause': 'sql-executes',
+        'match': 'DeleteField(m, f) followed in the same run by an '
+                 'AddField / RenameField producing a field named f again; '
+                 'INSERT INTO "TEMP_TABLE" fails with "no column named f"',
+        'what': 'the merged rebuild filters new_fields with "column not in '
+                'deleted_columns", which also removes the re-added column '
+                'of the same name from CREATE TABLE while its initial '
+                'value is still inserted',
+        'pred': _feat_pred('readded', 'OperationalError',
+                           r'has no column named'),
+    },
+    {
+        'id': 'delete-and-readd-same-column-in-one-run',
+        'clause': 'schema-equals-fresh',
+        'match': 'as above with a nullable re-added column: the column is '
+                 'simply missing',
+        'what': 'same filter: the re-added column never reaches CREATE '
+                'TABLE "TEMP_TABLE"',
+        'pred': _causes_pred('delete-and-readd-same-column-in-one-run'),
+    },
+    {
+        'id': 'type-change-with-column-name-change',
+        'clause': 'sql-executes',
+        'match': 'ChangeField(field_type=...) without db_column on a field '
+                 'whose column name is custom (db_column set in the models, '
+                 'by ChangeField or by RenameField) - also one at a time; '
+                 'or a type change and a db_column change of one field '
+                 'merged into one run',
+        'what': 'a type change resets the field attributes, the new field '
+                'gets the default column name in CREATE TABLE "TEMP_TABLE" '
+                'while the INSERT still names the old custom column',
+        'pred': _feat_pred('type_change_custom_column', 'OperationalError',
+                           r'has no column named'),
+    },
+    {
+        'id': 'rename-model-not-tracked-in-database-state',
+        'clause': 'accepted-evolution-crashes',
+        'match': 'RenameModel(old, new, db_table=<new table>) followed in '
+                 'the same run by a mutation on <new> that registers an '
+                 'index (db_index/unique/FK AddField, ChangeMeta ...)',
+        'what': 'rename_table() generates SQL but never renames the table '
+                'inside the DatabaseState, so add_index() on the new table '
+                'name raises DatabaseStateError',
+        'pred': _feat_pred('renamed_model_touched_later',
+                           'DatabaseStateError', r'not being tracked'),
+    },
+    {
+        'id': 'index-and-column-name-changed-in-one-run',
+        'clause': 'schema-equals-fresh',
+        'match': 'one run changes db_index/unique AND db_column of the '
+                 'same field (two ChangeFields the optimiser merges, or '
+                 'one): single-column index on the wrong/old column name',
+        'what': 'change_column_attrs handles db_index/unique with the '
+                'field object carrying the old column name and db_column '
+                '(RENAME COLUMN) independently, in attribute order',
+        'pred': _causes_pred('index-and-column-name-changed-in-one-run'),
+    },
+    {
+        'id': 'index-and-column-name-changed-in-one-run',
+        'clause': 'sql-executes',
+        'match': 'same input class; CREATE INDEX names a column that was '
+                 'renamed away ("no such column")',
+        'what': 'see the schema-equals-fresh entry of the same id',
+        'pred': _feat_pred('index_and_column_changed', 'OperationalError',
+                           r'no such column'),
+    },
+    {
+        'id': 'constraints-changed-twice-in-one-run',
+        'clause': 'schema-equals-fresh',
+        'match': 'two ChangeMeta(m, "constraints", ...) in one run (the '
+                 'optimiser only de-duplicates unique_together/indexes)',
+        'what': 'both ops land in one SQLiteAlterTableSQLResult; '
+                'added_constraints is taken from the ADD CONSTRAINTS item '
+                'even when a later REBUILD item means "none", so the '
+                'constraint of the first op survives',
+        'pred': _causes_pred('constraints-changed-twice-in-one-run'),
+    },
+    {
+        'id': 'second-index-on-same-columns-skipped',
+        'clause': 'schema-equals-fresh',
+        'match': 'the evolved models declare two indexes on the same '
+                 'column list (e.g. db_index=True and a Meta.indexes entry '
+                 'on the same field); only one exists - also one at a time',
+        'what': 'index creation is keyed on DatabaseState.find_index(columns)'
+                ': an existing index on the same columns makes the '
+                'evolver skip creating the second one',
+        'pred': _causes_pred('second-index-on-same-columns-skipped'),
+    },
+    {
+        'id': 'optimizer-noop-field-still-referenced',
+        'clause': 'accepted-evolution-crashes',
+        'match': 'AddField(m, f) ... ChangeMeta(m, ..., value naming f) ... '
+                 'DeleteField(m, f) in one run',
+        'what': '_process_mutation_batch removes the AddField/DeleteField '
+                'pair as a no-op but keeps the ChangeMeta that names the '
+                'field -> FieldDoesNotExist while generating SQL',
+        'pred': _feat_pred('noop_field_in_changemeta', 'FieldDoesNotExist'),
+    },
+    {
+        'id': 'optimizer-field-ids-ignore-model-renames',
+        'clause': 'accepted-evolution-crashes',
+        'match': 'field mutations on a model before and after a '
+                 'RenameModel of it in one run',
+        'what': '_get_mutation_id keys fields by the model name written in '
+                'the mutation, so renames/deletes across a RenameModel are '
+                'matched wrongly or not at all (AttributeError on a '
+                'missing field signature)',
+        'pred': _feat_pred('field_ids_across_model_rename',
+                           'AttributeError', r"'field_type'"),
+    },
+])
+
+
+KNOWN_C01.extend([
+    {
+        'id': 'unique-together-member-deleted-in-same-run',
+        'clause': 'sql-executes',
+        'match': 'ChangeMeta(unique_together=[..f..]) and DeleteField(f) in '
+                 'one run; "error in index ..._uniq ...: no such column"',
+        'what': 'see the schema-equals-fresh entry of the same id: the '
+                'unique index for the original tuple is created although '
+                'the column is dropped in the same run',
+        'pred': _feat_pred('ut_member_deleted', 'OperationalError',
+                           r'error in index .*no such column'),
+    },
+    {
+        'id': 'm2m-table-rename-keeps-index-names',
+        'clause': 'sql-executes',
+        'match': 'a many-to-many field is renamed (its table is renamed) '
+                 'and later a many-to-many field with the old name is added '
+                 'again; "index ..._uniq already exists"',
+        'what': 'rename_table() for the auto-created m2m table keeps the '
+                'old index names, which collide with those of the new '
+                'table of the same original name',
+        'pred': _error_pred('OperationalError',
+                            r'^index \w+ already exists',
+                            lambda sc, ob: any(
+                                d[0] in ('RenameField', 'RenameModel')
+                                for d in _muts_of(sc, ob))),
+    },
+])
+
+
+# ---------------------------------------------------------------------------
+# C02 / C03 / C18 known findings
+# ---------------------------------------------------------------------------
+
+def initial_param_order_mismatch(spec, muts, batched=True):
+    """Does some rebuild of the run bind >= 2 parameterised initial values
+    whose order of appearance in the mutations differs from the order of
+    their placeholders (existing columns in table order, then added
+    columns in order of addition)?
+
+    This is the exact input class of the field_initials/new_initial loop
+    defect in SQLiteAlterTableSQLResult.to_sql.
+    """
+    if not batched:
+        return False
+
+    state = SeqState(spec, protected=())
+    runs = {}      # model -> list of (op order item)
+    sig_order = {}
+    mismatch = False
+
+    def flush(model):
+        items = runs.pop(model, [])
+        params = [item for item in items if item[2]]
+
+        if len(params) < 2:
+            return False
+
+        op_order = [item[1] for item in params]
+        changed = [item for item in params if item[0] == 'change']
+        added = [item for item in params if item[0] == 'add']
+        order = sig_order.get(model, [])
+        placeholder_order = ([item[1] for item in
+                              sorted(changed, key=lambda it: (
+                                  order.index(it[1]) if it[1] in order
+                                  else len(order)))] +
+                             [item[1] for item in added])
+
+        return op_order != placeholder_order
+
+    last_model = None
+
+    for desc in muts:
+        kind = desc[0]
+        model = desc[1] if kind not in ('SQLMutation',
+                                        'DeleteApplication') else None
+
+        if model != last_model and last_model is not None:
+            mismatch = flush(last_model) or mismatch
+
+        last_model = model
+
+        if model is None or model not in state.models:
+            try:
+                state.apply(desc)
+            except Exception:
+                pass
+
+            continue
+
+        # Placeholder order is the field order of the SIGNATURE the rebuild
+        # works from: RenameField.simulate removes and re-adds the field
+        # signature, i.e. a renamed field moves to the end.
+        fields = sig_order.setdefault(
+            model, list(state.models[model]['fields']))
+
+        if kind == 'AddField':
+            fields.append(desc[2])
+        elif kind == 'RenameField' and desc[2] in fields:
+            fields.remove(desc[2])
+            fields.append(desc[3])
+        elif kind == 'DeleteField' and desc[2] in fields:
+            fields.remove(desc[2])
+
+        if kind == 'AddField' and desc[3] != 'ManyToManyField':
+            initial = (desc[4] or {}).get('initial')
+            param = initial is not None and not (
+                isinstance(initial, dict) and '__callable__' in initial)
+            runs.setdefault(model, []).append(
+                ('add', desc[2], param, len(fields)))
+        elif kind == 'ChangeField':
+            kwargs = desc[3]
+            info = state.models[model]['fields'].get(desc[2])
+            initial = kwargs.get('initial')
+
+            if (info is not None and kwargs.get('null') is False and
+                initial is not None):
+                param = not (isinstance(initial, dict) and
+                             '__callable__' in initial)
+                position = desc[2]
+                added_here = [i for i, item in
+                              enumerate(runs.get(model, []))
+                              if item[0] == 'add' and item[1] == desc[2]]
+
+                if added_here:
+                    # the optimiser folds it into the AddField
+                    old = runs[model][added_here[0]]
+                    runs[model][added_here[0]] = ('add', old[1], param,
+                                                  old[3])
+                else:
+                    runs.setdefault(model, []).append(
+                        ('change', desc[2], param, position))
+        elif kind in ('RenameModel', 'DeleteModel'):
+            mismatch = flush(model) or mismatch
+
+            if kind == 'RenameModel' and model in sig_order:
+                sig_order[desc[2]] = sig_order.pop(model)
+        elif kind == 'RenameField':
+            runs[model] = [
+                (item[0], desc[3] if item[1] == desc[2] else item[1],
+                 item[2], item[3]) for item in runs.get(model, [])]
+
+        try:
+            state.apply(desc)
+        except Exception:
+            pass
+
+    if last_model is not None:
+        mismatch = flush(last_model) or mismatch
+
+    # The optimiser regroups the mutations by model, so all mutations of a
+    # model end up in one run: evaluate per model as well.
+    if not mismatch:
+        by_model = {}
+
+        for desc in muts:
+            if desc[0] in ('SQLMutation', 'DeleteApplication'):
+                continue
+
+            by_model.setdefault(desc[1], []).append(desc)
+
+        if len(by_model) > 1:
+            for model, model_muts in by_model.items():
+                if model in spec and initial_param_order_mismatch(
+                        OrderedDict([(model, spec[model])] + [
+                            (m, spec[m]) for m in spec if m != model]),
+                        model_muts):
+                    return True
+
+    return mismatch
+
+
+KNOWN_C02[:] = [
+    {
+        'id': 'initial-values-bound-in-mutation-order',
+        'clause': ['added-column-initial', 'null-replaced-by-initial',
+                   'surviving-value-unchanged'],
+        'match': 'one table rebuild carrying >= 2 parameterised (non '
+                 'callable, non NULL) initial values whose order in the '
+                 'mutation list differs from the placeholder order: '
+                 'existing columns made NOT NULL come first in table '
+                 'column order, added columns follow in order of addition. '
+                 'I.e. any AddField(initial) listed BEFORE a '
+                 'ChangeField(null=False, initial), or two '
+                 'ChangeField(null=False, initial) listed against column '
+                 'order.  [ChangeField..., AddField...] in column order is '
+                 'fine, so is one mutation per run',
+        'what': 'SQLiteAlterTableSQLResult.to_sql appends the bound values '
+                'to field_initials while iterating new_initial (mutation '
+                'order) but the "%s" placeholders sit in field_values '
+                'order (column order), so values land in the wrong '
+                'columns',
+        'pred': lambda sc, ob: initial_param_order_mismatch(
+            sc['spec'], sc['muts'], sc.get('batched', True)),
+    },
+]
+
+
+def _c03_error_pred(feature=None, error_class=None, message_re=None,
+                    extra=None):
+    base = (_feat_pred(feature, error_class, message_re) if feature
+            else _error_pred(error_class, message_re))
+
+    def pred(scenario, observed):
+        if not base(scenario, observed):
+            return False
+
+        return extra is None or extra(scenario, observed)
+
+    return pred
+
+
+_ACCEPTED = ['batched-accepted', 'evolver-accepted']
+_SCHEMA = ['batched-same-schema', 'evolver-same-schema']
+_ROWS = ['batched-same-rows', 'evolver-same-rows']
+
+KNOWN_C03[:] = [
+    {
+        'id': 'optimizer-rewrites-mutations-in-place',
+        'clause': 'definitions-unaltered',
+        'match': 'any sequence in which _process_mutation_batch folds '
+                 'mutations: AddField/ChangeField followed by ChangeField '
+                 'of the same field (attrs/initial/field_type copied into '
+                 'the earlier object), AddField or RenameField followed by '
+                 'RenameField (field_name / new_field_name / db_column '
+                 'rewritten), RenameField followed by DeleteField '
+                 '(DeleteField.field_name rewritten), RenameModel chains',
+        'what': 'AppMutator._process_mutation_batch / _copy_change_attrs '
+                'assign to attributes of the caller\'s mutation objects '
+                'instead of working on copies',
+        'pred': lambda sc, ob: True,
+    },
+    {
+        'id': 'optimizer-rewrites-mutations-in-place',
+        'clause': ['rerun-same-result', 'evolver-accepted',
+                   'evolver-same-signature', 'evolver-same-schema',
+                   'evolver-same-rows'],
+        'match': 'same input class (observed.altered is true): the second '
+                 'processing of the rewritten objects (AppMutator again, '
+                 'or EvolveAppTask.prepare() followed by _build_batches()) '
+                 'fails or differs',
+        'what': 'consequence of the in-place rewrite: e.g. after '
+                '[AddField(x), RenameField(x, r)] the AddField already '
+                'adds "r", so the second pass looks up a field "x" that '
+                'never existed (AttributeError: NoneType has no '
+                'field_type) or applies merged attributes twice',
+        'pred': lambda sc, ob: bool(ob.get('altered')) and not any(
+            c.startswith('batched-') for c in ob.get('also_failed', [])),
+    },
+    {
+        'id': 'optimizer-regroups-by-model-name',
+        'clause': _ACCEPTED,
+        'match': 'mutations on >= 2 models whose order changes when the '
+                 'mutations are grouped by sorted(model name): e.g. '
+                 '[RenameModel(B -> Aa), <anything on Aa>], '
+                 '[DeleteField(B.ref->A) or DeleteModel(B), DeleteModel(A)]',
+        'what': '_process_mutation_batch ends with "for model_name in '
+                'sorted(model_names)": mutations naming a model that sorts '
+                'earlier are moved in front of the RenameModel creating it '
+                '/ the deletion of its referrers',
+        'pred': _c03_error_pred('reorder_sensitive'),
+    },
+    {
+        'id': 'rename-model-not-tracked-in-database-state',
+        'clause': _ACCEPTED,
+        'match': 'see KNOWN_C01',
+        'what': 'see KNOWN_C01 (one at a time the DatabaseState is '
+                're-scanned, so only the optimised run fails)',
+        'pred': _c03_error_pred('renamed_model_touched_later',
+                                'DatabaseStateError', r'not being tracked'),
+    },
+    {
+        'id': 'delete-and-readd-same-column-in-one-run',
+        'clause': _ACCEPTED,
+        'match': 'see KNOWN_C01',
+        'what': 'see KNOWN_C01',
+        'pred': _c03_error_pred('readded', 'OperationalError',
+                                r'has no column named'),
+    },
+    {
+        'id': 'type-change-with-column-name-change',
+        'clause': _ACCEPTED,
+        'match': 'see KNOWN_C01 (the merged variant only)',
+        'what': 'see KNOWN_C01',
+        'pred': _c03_error_pred('type_change_custom_column',
+                                'OperationalError', r'has no column named'),
+    },
+    {
+        'id': 'index-and-column-name-changed-in-one-run',
+        'clause': _ACCEPTED,
+        'match': 'see KNOWN_C01',
+        'what': 'see KNOWN_C01',
+        'pred': _c03_error_pred('index_and_column_changed',
+                                'OperationalError', r'no such column'),
+    },
+    {
+        'id': 'unique-together-member-deleted-in-same-run',
+        'clause': _ACCEPTED,
+        'match': 'see KNOWN_C01',
+        'what': 'see KNOWN_C01',
+        'pred': _c03_error_pred('ut_member_deleted', 'OperationalError',
+                                r'error in index .*no such column'),
+    },
+    {
+        'id': 'optimizer-noop-field-still-referenced',
+        'clause': _ACCEPTED,
+        'match': 'see KNOWN_C01',
+        'what': 'see KNOWN_C01',
+        'pred': _c03_error_pred('noop_field_in_changemeta',
+                                'FieldDoesNotExist'),
+    },
+    {
+        'id': 'optimizer-field-ids-ignore-model-renames',
+        'clause': _ACCEPTED,
+        'match': 'see KNOWN_C01',
+        'what': 'see KNOWN_C01',
+        'pred': _c03_error_pred('field_ids_across_model_rename'),
+    },
+    {
+        'id': 'drop-index-after-rebuild-dropped-it',
+        'clause': _ACCEPTED,
+        'match': 'see KNOWN_C01 (one at a time the re-scanned '
+                 'DatabaseState no longer lists the lost index)',
+        'what': 'see KNOWN_C01',
+        'pred': _c03_error_pred(None, 'OperationalError', r'^no such index',
+                                _after_rebuild),
+    },
+    {
+        'id': 'initial-values-bound-in-mutation-order',
+        'clause': _ROWS,
+        'match': 'see KNOWN_C02',
+        'what': 'see KNOWN_C02',
+        'pred': lambda sc, ob: initial_param_order_mismatch(
+            sc['spec'], sc['muts']),
+    },
+]
+
+KNOWN_C03[1]['pred'] = lambda sc, ob: bool(ob.get('altered')) and (
+    ob.get('clause_hint') is None)
+
+
+def _inplace_consequence(clause_family):
+    def pred(scenario, observed):
+        if not observed.get('altered'):
+            return False
+
+        also = observed.get('also_failed', [])
+
+        return 'batched-' + clause_family not in also
+
+    return pred
+
+
+# Replace the generic consequence entry by one entry per clause, so that an
+# Evolver-only failure is attributed to the in-place rewrite only when the
+# bare optimised run did not fail the same way.
+KNOWN_C03[1:2] = [
+    {
+        'id': 'optimizer-rewrites-mutations-in-place',
+        'clause': 'rerun-same-result',
+        'match': 'same input class (observed.altered is true): the second '
+                 'AppMutator fed with the rewritten objects fails or '
+                 'differs',
+        'what': 'consequence of the in-place rewrite: e.g. after '
+                '[AddField(x), RenameField(x, r)] the AddField already '
+                'adds "r", so the second pass looks up a field "x" that '
+                'never existed (AttributeError: NoneType has no '
+                'field_type)',
+        'pred': lambda sc, ob: bool(ob.get('altered')),
+    },
+] + [
+    {
+        'id': 'optimizer-rewrites-mutations-in-place',
+        'clause': 'evolver-' + _family,
+        'match': 'same input class, and the bare optimised run does not '
+                 'fail batched-%s: EvolveAppTask.prepare() processes the '
+                 'mutations, _build_batches() processes the SAME objects '
+                 'again' % _family,
+        'what': 'consequence of the in-place rewrite inside the real '
+                'Evolver pipeline',
+        'pred': _inplace_consequence(_family),
+    }
+    for _family in ('accepted', 'same-signature', 'same-schema',
+                    'same-rows')
+]
+
+KNOWN_C03.extend([
+    {
+        'id': 'unique-together-member-deleted-in-same-run',
+        'clause': _ACCEPTED,
+        'match': 'see KNOWN_C01; here the unique index on the literal '
+                 '"deleted column" + remaining columns hits duplicate rows',
+        'what': 'see KNOWN_C01',
+        'pred': _c03_error_pred('ut_member_deleted', 'IntegrityError',
+                                r'UNIQUE constraint failed: index'),
+    },
+    {
+        'id': 'optimizer-drops-rename-back-to-existing-name',
+        'clause': ['batched-same-signature', 'batched-same-schema',
+                   'batched-same-rows', 'evolver-same-signature',
+                   'evolver-same-schema', 'evolver-same-rows'],
+        'match': 'RenameModel(X -> Y) in one batch and, after a barrier '
+                 '(SQLMutation), RenameModel(Y -> X) where X is a model '
+                 'name of the start signature',
+        'what': '_process_mutation_batch inspects the signature BEFORE any '
+                'mutation of the run was simulated: "new name present and '
+                'old name absent" then holds for the rename back, which is '
+                'dropped as "already in the baseline"; the model stays Y',
+        'pred': lambda sc, ob: sequence_features(
+            sc['muts'], spec=sc['spec'])['rename_to_baseline_name'],
+    },
+    {
+        'id': 'optimizer-merges-changefield-across-type-change',
+        'clause': ['batched-same-signature', 'evolver-same-signature'],
+        'match': 'ChangeField(f, attrs) followed in the same batch by '
+                 'ChangeField(f, field_type=...)',
+        'what': '_copy_change_attrs update()s the attributes of the later '
+                'ChangeField into the earlier one; applied one at a time '
+                'the type change RESETS the attributes (field_sig.'
+                'field_attrs = self.field_attrs.copy()), so e.g. a '
+                'db_index=True set just before is kept only when batched',
+        'pred': lambda sc, ob: sequence_features(
+            sc['muts'], spec=sc['spec'])['changefield_then_type_change'],
+    },
+])
+
+for _cause in ('rename-model-not-tracked-in-database-state',
+               'optimizer-merges-changefield-across-type-change',
+               'rebuild-loses-table-level-objects',
+               'positive-integer-check-not-created',
+               'db-index-change-after-rebuild-op-ignored',
+               'delete-and-readd-same-column-in-one-run',
+               'index-and-column-name-changed-in-one-run',
+               'constraints-changed-twice-in-one-run',
+               'second-index-on-same-columns-skipped',
+               'unique-together-member-deleted-in-same-run',
+               'index-on-renamed-column-not-dropped',
+               'rename-model-keeps-m2m-column-names'):
+    KNOWN_C03.append({
+        'id': _cause,
+        'clause': _SCHEMA,
+        'match': 'see KNOWN_C01: the defect strikes only one of the two '
+                 'runs (or at different points), so the schemas differ',
+        'what': 'see KNOWN_C01',
+        'pred': _causes_pred(_cause),
+    })
+
+
+_NULL_ROUNDTRIP = {
+    'id': 'optimizer-merges-away-null-roundtrip',
+    'match': 'ChangeField(f, null=False, initial=I) followed in the same '
+             'batch by ChangeField(f, null=True)',
+    'what': '_copy_change_attrs folds both into one ChangeField whose '
+            'final null=True wins, so the NULLs that the first change '
+            'replaces by I when applied on its own stay NULL',
+    'pred': lambda sc, ob: sequence_features(
+        sc['muts'], batched=sc.get('batched', True),
+        spec=sc['spec'])['null_roundtrip'],
+}
+KNOWN_C02.append(dict(_NULL_ROUNDTRIP, clause='null-replaced-by-initial'))
+KNOWN_C03.append(dict(_NULL_ROUNDTRIP, clause=_ROWS))
